@@ -68,6 +68,7 @@ THEOREMS = [
     "C17_resolve_inside",
     "C17_resolve_kernel",
     "C17_reject_outside",
+    "C17_absolute_is_rerooted",
     "C17_realpath_agrees_with_kernel",
     "C17_kernel_outside_rejected",
     "C17_resolve_is_kernel_location",
@@ -100,7 +101,9 @@ MANIFEST_ENTRY = {
                   "kernel can walk a string the modelled os.path.realpath returns exactly the kernel's location "
                   "(C17_realpath_agrees_with_kernel), so a string the kernel resolves outside the root is Err Security "
                   "(C17_kernel_outside_rejected, C17_reject_outside) and an answer is never some other file "
-                  "(C17_resolve_is_kernel_location); likewise _get_arrow_path's three-way split (C17_arrow_inside); list_files yields "
+                  "(C17_resolve_is_kernel_location); 'escaping' is judged on the JOINED string: a true absolute string such as /etc/passwd is "
+                  "stripped of its leading slashes and re-rooted under the table by design, and is answered exactly as its relative "
+                  "spelling (C17_absolute_is_rerooted); likewise _get_arrow_path's three-way split (C17_arrow_inside); list_files yields "
                   "only '..'-free names of files below the resolved prefix (C17_listing_relative) and scans only real, link-free "
                   "directories at or below it -- never through a directory link, inward or outward (C17_listing_scans_inside); every entry point of the table "
                   "regenerated from the source hands the OS only its guard's result or that result's parent (C17_entrypoints), also at "
@@ -162,7 +165,8 @@ def warm_up() -> None:
 def strings_for(ctx, wsp_ws: str, depth: int, sample: Optional[int]) -> List[str]:
     g = pathfs.grammar(depth)
     fixed = pathfs.grammar(2) + pathfs.absolute_spellings(wsp_ws) + pathfs.loop_spellings() + \
-        pathfs.grammar(2, ["..", "data", "ln_loop", "ln_c1", "ln_sib", "ln_abs", "ln_out", "new"]) + ["", ".", "/", "//", "data/..", "a//b", "data//f.parquet"]
+        pathfs.grammar(2, ["..", "data", "ln_loop", "ln_c1", "ln_sib", "ln_abs", "ln_out", "new"]) + ["", ".", "/", "//", "data/..", "a//b", "data//f.parquet"] + \
+        pathfs.missing_then_up_spellings(3, full=ctx.tier != "quick")
     if sample is not None and len(g) > sample:
         g = ctx.rng.sample(g, sample)
     out: Dict[str, None] = {}
@@ -302,6 +306,16 @@ def oracle_storage(ctx, strings: Sequence[str]) -> Tuple[str, List[Any]]:
     return wsp.ws, obs
 
 
+# missing components (or a file used as a directory) cancelled by '..' before an outward DIRECTORY link of the cycle-free arrangement,
+# at depth 1..3 (pathfs.missing_then_up_spellings is the same family over the standard arrangement)
+ACYCLIC_MISSING_THEN_UP = [
+    "data/nope/../../data/ext/secret.txt", "data/nope/../ext", "data/nope/../ext/secret.txt", "/data/nope/../../data/ext/secret.txt",
+    "nope/../data/ext/nested/deeper.bin", "nope/nope2/../../data/ext", "data/part/nope/../deep/deeper.bin", "data/part/nope/nope2/nope3/../../../deep",
+    "x/../data/ext/secret.txt", "data/f.parquet/../ext/new.bin", "data/nope/../sibl/secret.txt", "metadata/nope/../ext/foreign.inflight",
+    "data/nope/../hot/a.parquet", "data/nope/../f.parquet",
+]
+
+
 def oracle_acyclic(ctx, depth: int) -> None:
     """The cycle-free arrangement (pathfs.acyclic_spec): outward / inward / sibling DIRECTORY links at depth >= 1 below the
     prefixes that are listed.  Every storage entry point x every prefix spelling over that tree's components; what a
@@ -311,7 +325,8 @@ def oracle_acyclic(ctx, depth: int) -> None:
     audit = Audit.get()
     from datashard.storage_backend import LocalStorageBackend
     strings = ["", ".", "/"] + pathfs.grammar(depth, pathfs.ACYCLIC_COMPONENTS) + \
-        [wsp.root, wsp.root + "/data", wsp.lnroot + "/data", wsp.ws + "/out", "data/part/deep/deeper.bin", "data/ext/nested/deeper.bin", "data/hot/a.parquet"]
+        [wsp.root, wsp.root + "/data", wsp.lnroot + "/data", wsp.ws + "/out", "data/part/deep/deeper.bin", "data/ext/nested/deeper.bin", "data/hot/a.parquet"] + \
+        ACYCLIC_MISSING_THEN_UP
     outcomes: collections.Counter = collections.Counter()
     brk = Breaker()
     shrunk: set = set()
@@ -1240,7 +1255,7 @@ def corr_paths(ctx, strings: Sequence[str], arrangement: str = "standard") -> No
         spec = pathfs.standard_spec(ws)
         extra = pathfs.absolute_spellings(ws) + pathfs.loop_spellings() + \
             ["", ".", "/", "//", "data/..", "a//b", "data//f.parquet", "ln_loop//" + ws.lstrip("/") + "/out/secret.txt",
-             "ln_loop//" + ws.lstrip("/") + "/wh/tbl/x"]
+             "ln_loop//" + ws.lstrip("/") + "/wh/tbl/x"] + pathfs.missing_then_up_spellings(3, full=ctx.tier != "quick")
         bases = [("direct", root, wh), ("symlink", os.path.join(wh, "lnroot"), wh), ("relative", pathfs.ROOT_NAME, wh),
                  ("relative-link-slash", "lnroot/", wh), ("dotdot", root + "/data/..", ws), ("via-loop", root + "/ln_loop/../ln_up/" + pathfs.ROOT_NAME, ws)]
     elif arrangement == "filelink":
@@ -1252,7 +1267,7 @@ def corr_paths(ctx, strings: Sequence[str], arrangement: str = "standard") -> No
     else:
         spec = pathfs.acyclic_spec(ws)
         extra = ["", ".", "/", root, root + "/data", root + "/data/ext", ws + "/out", ws + "/out/nested/deeper.bin", "data/part/deep/deeper.bin",
-                 "data/ext/nested/deeper.bin", "data/hot/a.parquet", "data/sibl/secret.txt", "data/ln_file", "/data/ext/secret.txt"]
+                 "data/ext/nested/deeper.bin", "data/hot/a.parquet", "data/sibl/secret.txt", "data/ln_file", "/data/ext/secret.txt"] + ACYCLIC_MISSING_THEN_UP
         bases = [("direct", root, wh), ("symlink", os.path.join(wh, "lnroot"), wh), ("relative", pathfs.ROOT_NAME, wh),
                  ("through-outward-link", root + "/data/ext/../../" + pathfs.ROOT_NAME, ws)]
     for s_ in list(strings) + extra:
@@ -1415,8 +1430,9 @@ def corr_random_trees(ctx, ntrees: int, nstrings: int) -> None:
 def run(ctx) -> None:
     ctx.rule = ("path grammar: components {.., ., '', data, metadata, x, ln_in, ln_out, ln_up, tbl2(sibling-prefix)} to depth "
                 "3 (quick: depth 2 exhaustive + seeded sample of depth 3; thorough: depth 4 sample + depth 3 exhaustive), with and "
-                "without a leading '/', plus true absolute spellings of inside/outside targets and loop-driving spellings "
-                "(self loop, two-link cycle), x root direct / through a symlink (/ relative, via '..', via a loop for the resolver "
+                "without a leading '/', plus true absolute spellings of inside/outside targets, loop-driving spellings "
+                "(self loop, two-link cycle) and missing-then-up spellings (1..3 non-existent components, or a regular file used as a "
+                "directory, cancelled by '..' before a symlink name, below the root and below data/), x root direct / through a symlink (/ relative, via '..', via a loop for the resolver "
                 "correspondence) x 13 storage + 3 data-file + 10 table-level entry points; a second, cycle-free arrangement "
                 "(outward / inward / sibling DIRECTORY links at depth >= 1 below listed prefixes) x every storage entry point x its own "
                 "prefix grammar, and untampered table operations (garbage_collect, scan, append+gc, row_count) over both arrangements; "
